@@ -7,6 +7,7 @@
 import OpmVerif.Proofs.GridVol
 import OpmVerif.Proofs.GridVolI
 import OpmVerif.Proofs.GridVolJ
+import OpmVerif.Proofs.GridVolF
 import OpmVerif.Model.Grid
 import OpmVerif.Proofs.GridIndex
 
@@ -174,6 +175,26 @@ theorem signedVolume_split (c : Corners K) :
       (fun _ _ _ ha hb hg _ => C_upper c.Y ha hb hg) (fun _ _ _ ha hb hg _ => C_upper c.Z ha hb hg)
   rw [hL, hU]
   exact signedVolOf_split (C c.X) (C c.Y) (C c.Z)
+
+theorem cornerOf_C (r : Nat → K) {n : Nat} (hn : n < 8) : cornerOf (C r) n = r n := by
+  have : n = 0 ∨ n = 1 ∨ n = 2 ∨ n = 3 ∨ n = 4 ∨ n = 5 ∨ n = 6 ∨ n = 7 := by omega
+  rcases this with rfl | rfl | rfl | rfl | rfl | rfl | rfl | rfl <;> simp [cornerOf, C] <;> ring
+
+/-- **Complete characterisation of the generated formula**: for arbitrary corner positions the
+value computed by `calculateCellVol` (before `fabs`) is the divergence-theorem volume
+`1/12 Σ_faces (two triangulations)`; exact polyhedron volume when the faces are planar. -/
+theorem signedVol_eq_faceVol (X Y Z : Nat → K) : signedVol X Y Z = faceVol X Y Z := by
+  unfold signedVol
+  rw [signedVolOf_eq_faceVol]
+  simp only [faceVol, quad, det3, cornerOf_C X (by decide : 0 < 8), cornerOf_C X (by decide : 1 < 8),
+    cornerOf_C X (by decide : 2 < 8), cornerOf_C X (by decide : 3 < 8), cornerOf_C X (by decide : 4 < 8),
+    cornerOf_C X (by decide : 5 < 8), cornerOf_C X (by decide : 6 < 8), cornerOf_C X (by decide : 7 < 8),
+    cornerOf_C Y (by decide : 0 < 8), cornerOf_C Y (by decide : 1 < 8),
+    cornerOf_C Y (by decide : 2 < 8), cornerOf_C Y (by decide : 3 < 8), cornerOf_C Y (by decide : 4 < 8),
+    cornerOf_C Y (by decide : 5 < 8), cornerOf_C Y (by decide : 6 < 8), cornerOf_C Y (by decide : 7 < 8),
+    cornerOf_C Z (by decide : 0 < 8), cornerOf_C Z (by decide : 1 < 8),
+    cornerOf_C Z (by decide : 2 < 8), cornerOf_C Z (by decide : 3 < 8), cornerOf_C Z (by decide : 4 < 8),
+    cornerOf_C Z (by decide : 5 < 8), cornerOf_C Z (by decide : 6 < 8), cornerOf_C Z (by decide : 7 < 8)]
 
 theorem C_lowerI (r : Nat → K) {a b g : Nat} (ha : a ≤ 1) (hb : b ≤ 1) (hg : g ≤ 1) :
     C (fun n => if n % 2 = 0 then r n else midCornerI r n) a b g = lowerCI (C r) a b g := by
